@@ -28,7 +28,7 @@ STOP_CODONS = ("TAA", "TAG", "TGA")
 RULE = (
     "scan family: (a) every string over {A,T,G} up to the tier's length bound (quick 9, thorough 11); "
     "strings that contain an ORF are scanned on both strands for every record length in "
-    "{n, n+1, n+2, n+5} (thorough: n..n+6) with EVERY offset in [-L, L) (both the negative-offset and the "
+    "{n, n+1, n+4} (thorough: n..n+6) with EVERY offset in [-L, L) (both the negative-offset and the "
     "past-the-end convention for a window crossing the origin) plus record_length=None, and for every "
     "minimum length in {0, each ORF length, each ORF length + 1} on a rotating subset of those "
     "windows; strings without an ORF get both strands, minimum lengths {0, 3, 6, 9} on one rotating "
@@ -411,7 +411,7 @@ def replay(case: dict[str, Any]) -> list[str]:
 def _windows(n: int, tier: str) -> list[tuple[Optional[int], int]]:
     """(record_length, offset) for a scanned string of n bases: no record (linear coordinates), and
     records of n .. n+k bases with every offset in [-L, L)."""
-    extras = (0, 1, 2, 5) if tier == "quick" else (0, 1, 2, 3, 4, 5, 6)
+    extras = (0, 1, 4) if tier == "quick" else (0, 1, 2, 3, 4, 5, 6)
     combos: list[tuple[Optional[int], int]] = [(None, 0), (None, 1), (None, 7)]
     for extra in extras:
         length = n + extra
@@ -589,8 +589,9 @@ def gen_find(tier: str) -> Iterator[dict[str, Any]]:
         for start in range(size):
             for end in range(start + 3, size + 1):
                 k += 1
-                for overlap, minimum in settings:
-                    yield _find_case(rec, circ, [_gene(start, end, 1 if k % 2 else -1)], None, minimum, overlap)
+                for number, (overlap, minimum) in enumerate(settings):
+                    if thorough or (number + k) % 5 < 3:
+                        yield _find_case(rec, circ, [_gene(start, end, 1 if k % 2 else -1)], None, minimum, overlap)
     # FA2: whole record, pairs of genes on a grid (disjoint, touching, overlapping, nested, identical)
     for name, circ, step in (("B", False, 4),) + ((("A", True, 3),) if thorough else ()):
         rec = recs[name]
@@ -602,7 +603,7 @@ def gen_find(tier: str) -> Iterator[dict[str, Any]]:
                 genes = [_gene(*first, 1 if k % 2 else -1), _gene(*second, 1 if k % 3 else -1)]
                 if first == second:  # the record refuses two genes with one location and strand
                     genes[1]["strand"] = -genes[0]["strand"]
-                for overlap in (0, 3, 6) if thorough or k % 3 == 0 else (0, 3):
+                for overlap in (0, 3, 6) if thorough else ((3, 0, 6), (3,), (3, 0), (3, 6), (3, 0), (3,))[k % 6]:
                     yield _find_case(rec, circ, genes, None, 6, overlap)
     # FB: linear area, single genes and pairs
     rec = recs["A"]
@@ -684,7 +685,14 @@ def gen_random_find(run: Any) -> Iterator[dict[str, Any]]:
 # --------------------------------------------------------------------------------------------------
 # driver interface
 # --------------------------------------------------------------------------------------------------
+def _warm_up() -> None:
+    """Import the code under test once in the parent, so that the forked workers inherit it."""
+    import antismash.common.all_orfs  # noqa: F401  pylint: disable=import-outside-toplevel,unused-import
+    import antismash.common.secmet.test.helpers  # noqa: F401  pylint: disable=import-outside-toplevel,unused-import
+
+
 def shards(tier: str, seed: int) -> list:  # pylint: disable=unused-argument
+    _warm_up()
     out: list[dict[str, Any]] = []
     out += [{"fam": "s1", "part": i, "of": 16} for i in range(16)]
     out += [{"fam": "s2", "part": i, "of": 8} for i in range(8)]
